@@ -1,8 +1,8 @@
 #!/verif/.venv/bin/python
 # Replay of a solver counterexample against the unmodified code (no shims).
-# property=C02 kernel=two label=c02:seq_duration_fall
+# property=C02 kernel=step label=c02:duration_fall
 import sys
 sys.path[:0] = ['/repo' + "/pulser-core", '/repo' + "/pulser-simulation", "/verif"]
 from symx.replay import replay
-sys.exit(replay(check='checks.c02', kernel='two', shape={'own': {'clock': 1, 'local': False, 'slots': [], 'mod': True, 'pj': 'derived', 'targets_a': ['q0'], 'targets_b': ['q1']}, 'other': {'clock': 1, 'local': False, 'slots': ['pulseA'], 'mod': True, 'pj': 'derived', 'targets_a': ['q0'], 'targets_b': ['q2']}, 'op': ['add_pulse', 'no-delay', 'A'], 'maxseq': False, 'nbarriers': 1},
-                assignment={'own.min_duration': 1, 'own.tr': 2, 'other.min_duration': 1, 'other.tr': 1, 'other.s0.dur': 3, 'new.dur': 1, 'barrier0': 1, 'buf#1.start': 0, 'buf#1.end': 0, 'buf#2.start': 0, 'buf#2.end': 2, 'buf#5.start': 0, 'buf#5.end': 0, 'buf#6.start': 0, 'buf#6.end': 1}, label='c02:seq_duration_fall'))
+sys.exit(replay(check='checks.c02', kernel='step', shape={'own': {'clock': 1, 'local': False, 'slots': ['pulseA'], 'mod': True, 'pj': 'custom', 'targets_a': ['q0'], 'targets_b': ['q1']}, 'op': ['add_delay'], 'maxseq': True, 'nbarriers': 1},
+                assignment={'max_sequence_duration': 2, 'own.min_duration': 1, 'own.tr': 1, 'own.pjt': 0, 'own.s0.dur': 1, 'new.delay': 1, 'buf#1.start': 0, 'buf#1.end': 1, 'buf#2.start': 0, 'buf#2.end': 0}, label='c02:duration_fall'))
